@@ -146,3 +146,337 @@ Qed.
 
 Theorem c08_udp h rest : udp_wf h -> parse_udp false (udp_encode h ++ rest) = Ok (udp_fields h, 64).
 Proof. intros H. now rewrite udp_gen. Qed.
+
+(* ---- CoAP ---------------------------------------------------------------------------------------- *)
+Lemma Z_of_bits_acc_app2 a : forall acc b, Z_of_bits_acc acc (a ++ b) = Z_of_bits_acc (Z_of_bits_acc acc a) b.
+Proof. induction a as [|x a IH]; intros acc b; cbn [app Z_of_bits_acc]; [reflexivity|apply IH]. Qed.
+
+Lemma Z_of_bits_app a b : Z_of_bits (a ++ b) = Z_of_bits a * 2 ^ zlen b + Z_of_bits b.
+Proof. unfold Z_of_bits at 1. rewrite Z_of_bits_acc_app2. fold (Z_of_bits a). apply Z_of_bits_acc_app. Qed.
+
+Lemma Z_of_bits_small n x : 0 <= x < 2 ^ Z.of_nat n -> Z_of_bits (bits_of n x) = x.
+Proof. intros H. rewrite Z_of_bits_of. now apply Z.mod_small. Qed.
+
+Lemma eq_byte_nib n v : 0 <= n < 16 -> eq_byte (bits_of 4 n) v = (n =? v).
+Proof.
+  intros H. unfold eq_byte. rewrite zlen_bits_of, Z_of_bits_small by (cbn; lia). reflexivity.
+Qed.
+
+Lemma first_byte_not_ff x y : 0 <= x <= 14 -> 0 <= y < 16 -> eq_byte (bits_of 4 x ++ bits_of 4 y) 255 = false.
+Proof.
+  intros Hx Hy. unfold eq_byte. rewrite Z_of_bits_app, zlen_app, !zlen_bits_of, !Z_of_bits_small by (cbn; lia).
+  apply andb_false_intro2. apply Z.eqb_neq. cbn. lia.
+Qed.
+
+Lemma nibble_cases x : 0 <= x < 269 + 65536 ->
+  (x < 13 /\ nibble x = x /\ extension x = []) \/
+  (13 <= x < 269 /\ nibble x = 13 /\ extension x = bits_of 8 (x - 13)) \/
+  (269 <= x /\ nibble x = 14 /\ extension x = bits_of 16 (x - 269)).
+Proof.
+  intros H. unfold nibble, extension.
+  destruct (Z.ltb_spec x 13); [left; auto|]. destruct (Z.ltb_spec x 269); [right; left; auto|right; right; auto].
+Qed.
+
+Lemma opt_value_len o : opt_wf o -> zlen (o_value o) = 8 * o_len o /\ 0 <= o_len o.
+Proof.
+  intros (_ & H & _). unfold o_len. split.
+  - apply Z.div_exact; [lia|exact H].
+  - apply Z.div_pos; [apply zlen_nonneg|lia].
+Qed.
+
+Definition one_opt_fields (o : coap_opt) (nd nde nle nv : Z) : list field :=
+  [fd P_CoAP 7 (nd + 1) (bits_of 4 (nibble (o_delta o))); fd P_CoAP 8 (nd + 1) (bits_of 4 (nibble (o_len o)))]
+  ++ (if 13 <=? o_delta o then [fd P_CoAP 9 (nde + 1) (extension (o_delta o))] else [])
+  ++ (if 13 <=? o_len o then [fd P_CoAP 10 (nle + 1) (extension (o_len o))] else [])
+  ++ (if 0 <? o_len o then [fd P_CoAP 11 (nv + 1) (o_value o)] else []).
+
+Ltac eqb_dec :=
+  repeat match goal with
+  | |- context [?x =? ?y] =>
+    first [ replace (x =? y) with true by (symmetry; apply Z.eqb_eq; lia)
+          | replace (x =? y) with false by (symmetry; apply Z.eqb_neq; lia) ]
+  end.
+Ltac ltb_dec :=
+  repeat match goal with
+  | |- context [?x <? ?y] =>
+    first [ replace (x <? y) with true by (symmetry; apply Z.ltb_lt; lia)
+          | replace (x <? y) with false by (symmetry; apply Z.ltb_ge; lia) ]
+  | |- context [?x <=? ?y] =>
+    first [ replace (x <=? y) with true by (symmetry; apply Z.leb_le; lia)
+          | replace (x <=? y) with false by (symmetry; apply Z.leb_gt; lia) ]
+  end.
+
+Ltac sl_rw :=
+  match goal with |- context [sl ?E ?s ?e] =>
+    let H := fresh in eassert (H : sl E s e = _) by sl_solve; rewrite H; clear H end.
+
+Lemma coap_step f b cursor nd nde nle nv acc o r :
+  0 <= cursor -> sl_from b cursor = opt_encode o ++ r -> opt_wf o ->
+  coap_options_loop (S f) b cursor (mkopos nd nd nde nle nv) acc =
+  coap_options_loop f b (cursor + zlen (opt_encode o))
+    (mkopos (nd + 1) (nd + 1) (if 13 <=? o_delta o then nde + 1 else nde) (if 13 <=? o_len o then nle + 1 else nle)
+            (if 0 <? o_len o then nv + 1 else nv))
+    (acc ++ one_opt_fields o nd nde nle nv).
+Proof.
+  intros Hc Hob Hwf. destruct (opt_value_len o Hwf) as [Hvl Hl0]. destruct Hwf as (Hd & _ & Hl).
+  assert (Hl' : 0 <= o_len o < 269 + 65536) by lia. clear Hl Hl0.
+  unfold one_opt_fields, opt_encode in *.
+  set (d := o_delta o) in *. set (l := o_len o) in *. set (v := o_value o) in *. clearbody d l v.
+  assert (Nd : 0 <= nibble d <= 14) by (unfold nibble; destruct (d <? 13) eqn:E; [apply Z.ltb_lt in E; lia|destruct (d <? 269); lia]).
+  assert (Nl : 0 <= nibble l <= 14) by (unfold nibble; destruct (l <? 13) eqn:E; [apply Z.ltb_lt in E; lia|destruct (l <? 269); lia]).
+  cbn [coap_options_loop p_delta p_length p_dext p_lext p_value].
+  assert (Hb8 : sl b cursor (cursor + 8) = sl (sl_from b cursor) 0 8) by (rewrite sl_sl_from by lia; f_equal; lia).
+  pose proof (zlen_sl_from b cursor Hc) as Hz.
+  rewrite Hb8, Hob. rewrite Hob in Hz. clear Hb8 Hob.
+  rewrite <- !app_assoc in *.
+  rewrite !zlen_app, !zlen_bits_of in *. cbn [Z.of_nat Pos.of_succ_nat Pos.succ] in *.
+  pose proof (zlen_nonneg (extension d)). pose proof (zlen_nonneg (extension l)). pose proof (zlen_nonneg r).
+  assert (Hlt : cursor < zlen b) by lia.
+  destruct (Z.ltb_spec cursor (zlen b)) as [_|]; [|lia]. cbn [andb].
+  rewrite <- (sl_app _ 0 4 8) by lia.
+  match goal with |- context [sl ?E 0 4] =>
+    assert (H04 : sl E 0 4 = bits_of 4 (nibble d)) by sl_solve;
+    assert (H48 : sl E 4 8 = bits_of 4 (nibble l)) by sl_solve end.
+  rewrite H04, H48. rewrite first_byte_not_ff by lia. cbn [negb].
+  rewrite !eq_byte_nib by lia. rewrite Z_of_bits_small by (cbn; lia).
+  clear H04 H48.
+  destruct (nibble_cases d Hd) as [(Cd & Ed & Xd)|[(Cd & Ed & Xd)|(Cd & Ed & Xd)]];
+  destruct (nibble_cases l Hl') as [(Cl & El & Xl)|[(Cl & El & Xl)|(Cl & El & Xl)]];
+  rewrite Ed, El, Xd, Xl; rewrite Xd, Xl in Hz; rewrite ?zlen_bits_of in Hz;
+  cbn [Z.of_nat Pos.of_succ_nat Pos.succ app] in Hz; change (zlen (@nil bool)) with 0 in Hz |- *;
+  eqb_dec; cbv beta iota zeta; cbn [orb app];
+  repeat sl_rw; rewrite ?Z_of_bits_small by (cbn; lia);
+  ltb_dec; cbv beta iota zeta; repeat sl_rw.
+  all: cbn [app]; rewrite ?zlen_bits_of; cbn [Z.of_nat Pos.of_succ_nat Pos.succ].
+  all: destruct (Z.ltb_spec 0 l); ltb_dec; cbv iota; f_equal; try reflexivity; lia.
+Qed.
+
+Definition coap_tail (pl : option bits) : bits := match pl with Some p => bits_of 8 255 ++ p | None => [] end.
+Definition marker_fields (pl : option bits) : list field :=
+  match pl with Some _ => [fd P_CoAP 6 0 (bits_of 8 255)] | None => [] end.
+Definition marker_len (pl : option bits) : Z := match pl with Some _ => 8 | None => 0 end.
+
+Lemma opt_fields_cons o r nd nde nle nv :
+  opt_fields (o :: r) nd nde nle nv =
+  one_opt_fields o nd nde nle nv ++
+  opt_fields r (nd + 1) (if 13 <=? o_delta o then nde + 1 else nde) (if 13 <=? o_len o then nle + 1 else nle)
+             (if 0 <? o_len o then nv + 1 else nv).
+Proof.
+  unfold one_opt_fields. cbn [opt_fields].
+  destruct (13 <=? o_delta o), (13 <=? o_len o), (0 <? o_len o); cbn [app]; reflexivity.
+Qed.
+
+Lemma coap_loop_ok os : forall fuel b cursor nd nde nle nv acc pl,
+  0 <= cursor <= zlen b -> sl_from b cursor = concat (map opt_encode os) ++ coap_tail pl ->
+  Forall opt_wf os -> (length os < fuel)%nat ->
+  coap_options_loop fuel b cursor (mkopos nd nd nde nle nv) acc =
+  Ok (acc ++ opt_fields os nd nde nle nv ++ marker_fields pl,
+      cursor + zlen (concat (map opt_encode os)) + marker_len pl).
+Proof.
+  induction os as [|o os IH]; intros fuel b cursor nd nde nle nv acc pl Hc Hob Hwf Hf;
+    (destruct fuel as [|f]; [lia|]).
+  - cbn [map concat app] in *. change (zlen (@nil bool)) with 0. cbn [opt_fields app].
+    pose proof (zlen_sl_from b cursor ltac:(lia)) as Hz. rewrite Hob in Hz.
+    cbn [coap_options_loop].
+    destruct pl as [p|]; cbn [coap_tail marker_fields marker_len] in *.
+    + rewrite zlen_app, zlen_bits_of in Hz. cbn [Z.of_nat Pos.of_succ_nat Pos.succ] in Hz.
+      pose proof (zlen_nonneg p).
+      assert (Hb8 : sl b cursor (cursor + 8) = bits_of 8 255).
+      { replace (sl b cursor (cursor + 8)) with (sl (sl_from b cursor) 0 8) by (rewrite sl_sl_from by lia; f_equal; lia).
+        rewrite Hob. apply sl_here0. reflexivity. }
+      rewrite Hb8. change (eq_byte (bits_of 8 255) 255) with true.
+      destruct (Z.ltb_spec cursor (zlen b)); [|lia]. cbn [andb negb].
+      f_equal. f_equal. lia.
+    + change (zlen (@nil bool)) with 0 in Hz.
+      destruct (Z.ltb_spec cursor (zlen b)); [lia|]. cbn [andb].
+      rewrite app_nil_r. f_equal. f_equal. lia.
+  - inversion Hwf as [|? ? Ho Hos]; subst.
+    cbn [map concat] in *. rewrite <- app_assoc in Hob.
+    rewrite (coap_step f b cursor nd nde nle nv acc o _ ltac:(lia) Hob Ho).
+    pose proof (zlen_sl_from b cursor ltac:(lia)) as Hz. rewrite Hob in Hz. rewrite zlen_app in Hz.
+    pose proof (zlen_nonneg (opt_encode o)). pose proof (zlen_nonneg (concat (map opt_encode os) ++ coap_tail pl)).
+    rewrite IH with (pl := pl); cbn [length] in *; try lia; try assumption.
+    + rewrite opt_fields_cons, zlen_app, <- !app_assoc. f_equal. f_equal. lia.
+    + rewrite <- sl_from_from by lia. rewrite Hob. apply sl_from_here. reflexivity.
+Qed.
+
+Lemma opt_encode_len o : (8 <= length (opt_encode o))%nat.
+Proof. unfold opt_encode. rewrite !app_length, !bits_of_length. lia. Qed.
+
+Lemma opts_len os : (length os <= length (concat (map opt_encode os)))%nat.
+Proof.
+  induction os as [|o os IH]; cbn [map concat length]; [lia|].
+  rewrite app_length. pose proof (opt_encode_len o). lia.
+Qed.
+
+Lemma coap_options_ok os pl : Forall opt_wf os ->
+  (if 0 <? zlen (concat (map opt_encode os) ++ coap_tail pl)
+   then catch_all (coap_parse_options (concat (map opt_encode os) ++ coap_tail pl)) ParserError
+   else Ok ([], 0)) =
+  Ok (opt_fields os 0 0 0 0 ++ marker_fields pl, zlen (concat (map opt_encode os)) + marker_len pl).
+Proof.
+  intros Hwf. set (ob := concat (map opt_encode os) ++ coap_tail pl).
+  destruct (Z.ltb_spec 0 (zlen ob)) as [Hp|Hz].
+  - unfold coap_parse_options.
+    rewrite (coap_loop_ok os (S (length ob)) ob 0 0 0 0 0 [] pl).
+    + reflexivity.
+    + lia.
+    + rewrite sl_from_eq by lia. reflexivity.
+    + exact Hwf.
+    + unfold ob. rewrite app_length. pose proof (opts_len os). lia.
+  - apply zlen_0_nil in Hz. unfold ob in Hz. apply app_eq_nil in Hz. destruct Hz as [Ho Ht].
+    destruct os as [|o os].
+    + destruct pl as [p|]; [discriminate Ht|]. reflexivity.
+    + cbn [map concat] in Ho. apply app_eq_nil in Ho. destruct Ho as [Ho _].
+      pose proof (opt_encode_len o) as Hl. rewrite Ho in Hl. cbn in Hl. lia.
+Qed.
+
+Lemma coap_encode_split m :
+  coap_encode m = (c_ver m ++ c_type m ++ bits_of 4 (c_tkl m) ++ c_code m ++ c_mid m ++ c_token m ++
+                   concat (map opt_encode (c_opts m)) ++ firstn 8 (coap_tail (c_payload m))) ++
+                  match c_payload m with Some p => p | None => [] end.
+Proof.
+  unfold coap_encode. rewrite <- !app_assoc. repeat f_equal.
+  destruct (c_payload m); reflexivity.
+Qed.
+
+Theorem c08_coap m : coap_wf m -> parse_coap (coap_encode m) = Ok (coap_fields m, coap_header_len m).
+Proof.
+  intros (H1 & H2 & Ht & H3 & H4 & Htok & Hos).
+  apply has_len_zlen in H1, H2, H3, H4. cbn [Z.of_nat Pos.of_succ_nat Pos.succ] in *.
+  set (os := concat (map opt_encode (c_opts m))). set (tl := coap_tail (c_payload m)).
+  pose proof (zlen_nonneg os) as Hos0. pose proof (zlen_nonneg tl) as Htl0.
+  assert (S0 : forall b, b = c_ver m ++ c_type m ++ bits_of 4 (c_tkl m) ++ c_code m ++ c_mid m ++ c_token m ++ os ++ tl ->
+     32 <= zlen b /\
+     sl b 0 2 = c_ver m /\ sl b 2 4 = c_type m /\ sl b 4 8 = bits_of 4 (c_tkl m) /\ sl b 8 16 = c_code m /\
+     sl b 16 32 = c_mid m /\ sl b 32 (32 + c_tkl m * 8) = c_token m /\ sl_from b (32 + c_tkl m * 8) = os ++ tl).
+  { intros b ->. repeat split; try sl_solve; [zl|sl_from_find]. }
+  destruct (S0 (coap_encode m) eq_refl) as (E & E0 & E1 & E2 & E3 & E4 & E5 & E6).
+  unfold parse_coap. destruct (Z.ltb_spec (zlen (coap_encode m)) 32) as [|_]; [lia|].
+  cbv zeta. rewrite E2. rewrite Z_of_bits_small by (cbn; lia).
+  rewrite E0, E1, E3, E4, E5, E6.
+  unfold os, tl. rewrite coap_options_ok by exact Hos. cbn [bind fst snd].
+  unfold coap_fields, coap_header_len. apply f_equal. apply f_equal2.
+  - rewrite <- !app_assoc. unfold marker_fields. reflexivity.
+  - unfold coap_encode. fold os. rewrite !zlen_app, zlen_bits_of, H1, H2, H3, H4, Htok.
+    cbn [Z.of_nat Pos.of_succ_nat Pos.succ].
+    destruct (c_payload m) as [p|]; cbn [marker_len]; rewrite ?zlen_app, ?zlen_bits_of;
+      cbn [Z.of_nat Pos.of_succ_nat Pos.succ]; change (zlen (@nil bool)) with 0; lia.
+Qed.
+
+Definition coap_payload (m : coap_msg) : bits := match c_payload m with Some p => p | None => [] end.
+
+Lemma coap_rest m : sl_from (coap_encode m) (coap_header_len m) = coap_payload m.
+Proof.
+  unfold coap_header_len. rewrite coap_encode_split. apply sl_from_here.
+  rewrite zlen_app. unfold coap_payload. destruct (c_payload m); change (zlen (@nil bool)) with 0; lia.
+Qed.
+
+Lemma ipv6_encode_len h : ipv6_wf h -> zlen (ipv6_encode h) = 320.
+Proof.
+  intros (H1 & H2 & H3 & H4 & H5 & H6 & H7). apply has_len_zlen in H1, H2, H3, H4, H5, H6, H7.
+  cbn [Z.of_nat Pos.of_succ_nat Pos.succ] in *. unfold ipv6_encode. zl.
+Qed.
+Lemma ipv4_encode_len h : ipv4_wf h -> zlen (ipv4_encode h) = 160.
+Proof.
+  intros (H1 & H2 & H3 & H4 & H5 & H6 & H7 & H8 & H9 & H10 & H11).
+  apply has_len_zlen in H1, H2, H3, H4, H5, H6, H7, H8, H9, H10, H11.
+  cbn [Z.of_nat Pos.of_succ_nat Pos.succ] in *. unfold ipv4_encode. zl.
+Qed.
+Lemma udp_encode_len h : udp_wf h -> zlen (udp_encode h) = 64.
+Proof.
+  intros (H1 & H2 & H3 & H4). apply has_len_zlen in H1, H2, H3, H4.
+  cbn [Z.of_nat Pos.of_succ_nat Pos.succ] in *. unfold udp_encode. zl.
+Qed.
+
+(* ---- the explicit stacks ------------------------------------------------------------------------ *)
+Theorem c08_stack_ipv6_udp_coap h u m : ipv6_wf h -> udp_wf u -> coap_wf m ->
+  factory IPv6_UDP_CoAP (ipv6_encode h ++ udp_encode u ++ coap_encode m) =
+  Ok (ipv6_fields h ++ udp_fields u ++ coap_fields m, match c_payload m with Some p => p | None => [] end).
+Proof.
+  intros Hh Hu Hm. unfold factory, packet_parse. cbn [packet_parse_loop].
+  rewrite c08_ipv6 by exact Hh. cbn [bind fst snd].
+  rewrite sl_from_here by (symmetry; now apply ipv6_encode_len).
+  rewrite c08_udp by exact Hu. cbn [bind fst snd].
+  rewrite sl_from_here by (symmetry; now apply udp_encode_len).
+  rewrite c08_coap by exact Hm. cbn [bind fst snd].
+  rewrite coap_rest. cbn [app]. rewrite <- app_assoc. reflexivity.
+Qed.
+
+Theorem c08_stack_ipv4_udp_coap h u m : ipv4_wf h -> udp_wf u -> coap_wf m ->
+  factory IPv4_UDP_CoAP (ipv4_encode h ++ udp_encode u ++ coap_encode m) =
+  Ok (ipv4_fields h ++ udp_fields u ++ coap_fields m, match c_payload m with Some p => p | None => [] end).
+Proof.
+  intros Hh Hu Hm. unfold factory, packet_parse. cbn [packet_parse_loop].
+  rewrite c08_ipv4 by exact Hh. cbn [bind fst snd].
+  rewrite sl_from_here by (symmetry; now apply ipv4_encode_len).
+  rewrite c08_udp by exact Hu. cbn [bind fst snd].
+  rewrite sl_from_here by (symmetry; now apply udp_encode_len).
+  rewrite c08_coap by exact Hm. cbn [bind fst snd].
+  rewrite coap_rest. cbn [app]. rewrite <- app_assoc. reflexivity.
+Qed.
+
+(* ---- next-protocol prediction --------------------------------------------------------------------- *)
+Lemma coap_header_len_nonneg m : 0 <= coap_header_len m.
+Proof.
+  unfold coap_header_len. rewrite coap_encode_split, zlen_app.
+  match goal with |- context [zlen (?a ++ ?b)] => pose proof (zlen_nonneg (a ++ b)) end.
+  destruct (c_payload m); change (zlen (@nil bool)) with 0 in *; lia.
+Qed.
+
+Theorem c08_predict_udp_coap u m : udp_wf u -> coap_wf m -> Z_of_bits (u_dport u) = 5683 ->
+  factory S_UDP (udp_encode u ++ coap_encode m) =
+  Ok (udp_fields u ++ coap_fields m, match c_payload m with Some p => p | None => [] end).
+Proof.
+  intros Hu Hm Hp. unfold factory, packet_parse. cbn [packet_parse_loop].
+  rewrite udp_gen by exact Hu. rewrite Hp. change (5683 =? 5683) with true. cbv iota.
+  unfold chain. rewrite c08_coap by exact Hm. cbn [bind fst snd app].
+  pose proof (udp_encode_len u Hu) as Lu.
+  replace (64 + coap_header_len m) with (zlen (udp_encode u) + coap_header_len m) by lia.
+  pose proof (coap_header_len_nonneg m) as Hc.
+  rewrite <- sl_from_from by lia. rewrite sl_from_here by reflexivity.
+  rewrite coap_rest. reflexivity.
+Qed.
+
+Lemma sl_from_skip (a r : bits) n k : zlen a = n -> 0 <= k -> sl_from (a ++ r) (n + k) = sl_from r k.
+Proof.
+  intros <- Hk. pose proof (zlen_nonneg a). rewrite <- sl_from_from by lia.
+  now rewrite sl_from_here by reflexivity.
+Qed.
+
+Lemma udp_coap_chain u m : udp_wf u -> coap_wf m -> Z_of_bits (u_dport u) = 5683 ->
+  parse_udp true (udp_encode u ++ coap_encode m) = Ok (udp_fields u ++ coap_fields m, 64 + coap_header_len m).
+Proof.
+  intros Hu Hm Hp. rewrite udp_gen by exact Hu. rewrite Hp. change (5683 =? 5683) with true. cbv iota.
+  unfold chain. rewrite c08_coap by exact Hm. reflexivity.
+Qed.
+
+Theorem c08_predict_ipv6_udp_coap h u m : ipv6_wf h -> udp_wf u -> coap_wf m ->
+  Z_of_bits (v6_nh h) = 17 -> Z_of_bits (u_dport u) = 5683 ->
+  factory S_IPv6 (ipv6_encode h ++ udp_encode u ++ coap_encode m) =
+  factory IPv6_UDP_CoAP (ipv6_encode h ++ udp_encode u ++ coap_encode m).
+Proof.
+  intros Hh Hu Hm Hn Hp. rewrite c08_stack_ipv6_udp_coap by assumption.
+  unfold factory, packet_parse. cbn [packet_parse_loop].
+  rewrite ipv6_gen by exact Hh. rewrite Hn. change (17 =? 17) with true. cbv iota.
+  unfold chain. rewrite udp_coap_chain by assumption. cbn [bind fst snd app].
+  pose proof (coap_header_len_nonneg m).
+  rewrite sl_from_skip by (try apply ipv6_encode_len; auto; lia).
+  rewrite sl_from_skip by (try apply udp_encode_len; auto; lia).
+  rewrite coap_rest. reflexivity.
+Qed.
+
+Theorem c08_predict_ipv4_udp_coap h u m : ipv4_wf h -> udp_wf u -> coap_wf m ->
+  Z_of_bits (v4_proto h) = 17 -> Z_of_bits (u_dport u) = 5683 ->
+  factory S_IPv4 (ipv4_encode h ++ udp_encode u ++ coap_encode m) =
+  factory IPv4_UDP_CoAP (ipv4_encode h ++ udp_encode u ++ coap_encode m).
+Proof.
+  intros Hh Hu Hm Hn Hp. rewrite c08_stack_ipv4_udp_coap by assumption.
+  unfold factory, packet_parse. cbn [packet_parse_loop].
+  rewrite ipv4_gen by exact Hh. rewrite Hn. change (17 =? 17) with true. cbv iota.
+  unfold chain. rewrite udp_coap_chain by assumption. cbn [bind fst snd app].
+  pose proof (coap_header_len_nonneg m).
+  rewrite sl_from_skip by (try apply ipv4_encode_len; auto; lia).
+  rewrite sl_from_skip by (try apply udp_encode_len; auto; lia).
+  rewrite coap_rest. reflexivity.
+Qed.
